@@ -77,7 +77,71 @@ func textExpires(info string) int64 {
 // ---------------------------------------------------------------------------
 // Coq term printers
 
-func hx(s string) string { return core.Hex([]byte(s)) }
+// rawLit prints a byte string as a Coq term: (lit "...") for printable ASCII, hex otherwise.
+func rawLit(s string) string {
+	for i := 0; i < len(s); i++ {
+		if s[i] < 32 || s[i] > 126 {
+			return core.Hex([]byte(s))
+		}
+	}
+	return `(lit "` + strings.ReplaceAll(s, `"`, `""`) + `")`
+}
+
+// shared strings of the case being printed: the session id is bound to s_ and the
+// secret to k_ by wrap(), so that the long literals are elaborated once per case.
+type shr struct{ sid, secret string }
+
+var cur shr
+
+func appT(parts ...string) string {
+	var ps []string
+	for _, p := range parts {
+		if p != "" {
+			ps = append(ps, p)
+		}
+	}
+	switch len(ps) {
+	case 0:
+		return rawLit("")
+	case 1:
+		return ps[0]
+	}
+	t := ps[len(ps)-1]
+	for i := len(ps) - 2; i >= 0; i-- {
+		t = "(app " + ps[i] + " " + t + ")"
+	}
+	return t
+}
+func litOrEmpty(s string) string {
+	if s == "" {
+		return ""
+	}
+	return rawLit(s)
+}
+func tail(s string) string {
+	if cur.secret != "" && strings.HasSuffix(s, cur.secret) {
+		return appT(litOrEmpty(s[:len(s)-len(cur.secret)]), "k_")
+	}
+	return litOrEmpty(s)
+}
+func hx(s string) string {
+	if cur.sid != "" {
+		if i := strings.Index(s, cur.sid); i >= 0 {
+			return appT(litOrEmpty(s[:i]), "s_", tail(s[i+len(cur.sid):]))
+		}
+	}
+	return appT(tail(s))
+}
+func wrap(term string) string {
+	if cur.sid == "" {
+		return term
+	}
+	t := term
+	if cur.secret != "" {
+		t = "(let k_ := " + rawLit(cur.secret) + " in " + t + ")"
+	}
+	return "(let s_ := " + rawLit(cur.sid) + " in " + t + ")"
+}
 
 func zlist(xs []int) string {
 	ts := make([]string, len(xs))
@@ -188,7 +252,7 @@ func observeEntry(e *security.SessionEntry) (entryObs, error) {
 func keyTerm(key []byte, secrets ...string) string {
 	for _, s := range secrets {
 		if s != "" && bytes.Equal(key, specHKDF([]byte(s), len(key))) {
-			return fmt.Sprintf("(Kdf %s %s %d %s)", hx("htcondor"), hx("keygen"), len(key), hx(s))
+			return fmt.Sprintf("(Kdf %s %s %d %s)", rawLit("htcondor"), rawLit("keygen"), len(key), hx(s))
 		}
 	}
 	return "(KRaw " + core.Hex(key) + ")"
@@ -518,6 +582,8 @@ func runScenario(sc scenario, out sink, rnd func(int) int) (fails []fail) {
 		bad("secret-shape", "secret %q is not %d lowercase hex characters", secret, 2*security.VerifC16SecretLen)
 	}
 	sessExp := textExpires(sinfo)
+	cur = shr{sid: wantSid, secret: secret}
+	defer func() { cur = shr{} }()
 
 	entA, okA := security.VerifC16Entry(A, sid)
 	out.OracleCheck()
@@ -531,8 +597,8 @@ func runScenario(sc scenario, out sink, rnd func(int) int) (fails []fail) {
 		return
 	}
 	cmdsA, allA := cmdKeys(A, sid)
-	out.AddCase(fmt.Sprintf("(CMint %s %s %s %s %s (Some (%s, %s, %s, %s, %s)))", o.term(), hx(secret), core.Z(sessExp), core.Z(lo), core.Z(hi),
-		hx(claim), hx(pub), hx(sid), obsA.term(secret), hxlist(cmdsA)), desc)
+	out.AddCase(wrap(fmt.Sprintf("(CMint %s %s %s %s %s (Some (%s, %s, %s, %s, %s)))", o.term(), hx(secret), core.Z(sessExp), core.Z(lo), core.Z(hi),
+		hx(claim), hx(pub), hx(sid), obsA.term(secret), hxlist(cmdsA))), desc)
 
 	// -- cedar's own strict parser on the minted text
 	p := security.ParseClaimIDStrict(claim)
@@ -643,7 +709,7 @@ func runScenario(sc scenario, out sink, rnd func(int) int) (fails []fail) {
 	ihi := time.Now().UnixNano()
 	out.OracleCheck()
 	if ierr != nil {
-		out.AddCase(fmt.Sprintf("(CImport false %s %s %s %s None)", hx(claim), sc.Imp.term(), core.Z(ilo), core.Z(ihi)), desc)
+		out.AddCase(wrap(fmt.Sprintf("(CImport false %s %s %s %s None)", hx(claim), sc.Imp.term(), core.Z(ilo), core.Z(ihi))), desc)
 		bad("import-refused", "ImportClaimSession refused a freshly minted claim id: %v", ierr)
 		return
 	}
@@ -662,8 +728,8 @@ func runScenario(sc scenario, out sink, rnd func(int) int) (fails []fail) {
 		return
 	}
 	cmdsB, allB := cmdKeys(B, isid)
-	out.AddCase(fmt.Sprintf("(CImport false %s %s %s %s (Some (%s, %s, %s)))", hx(claim), sc.Imp.term(), core.Z(ilo), core.Z(ihi),
-		hx(isid), obsB.term(secret), hxlist(cmdsB)), desc)
+	out.AddCase(wrap(fmt.Sprintf("(CImport false %s %s %s %s (Some (%s, %s, %s)))", hx(claim), sc.Imp.term(), core.Z(ilo), core.Z(ihi),
+		hx(isid), obsB.term(secret), hxlist(cmdsB))), desc)
 	check("importer", obsB, sc.Imp.PeerFQU, security.ExecuteSideMatchSessionFQU, sc.Imp.PeerAddr, sc.Imp.Tag)
 	out.OracleCheck()
 	if w := wantCmds(sc.Imp.PeerAddr, sc.Imp.Tag, sc.Imp.Extra); !allB || strings.Join(w, "|") != strings.Join(cmdsB, "|") {
@@ -713,8 +779,8 @@ func runScenario(sc scenario, out sink, rnd func(int) int) (fails []fail) {
 		oD, err2 := observeEntry(eD)
 		if err1 == nil && err2 == nil {
 			cm, _ := cmdKeys(B2, ftB)
-			out.AddCase(fmt.Sprintf("(CImport true %s %s %s %s (Some (%s, %s, %s)))", hx(claim), sc.Imp.term(), core.Z(flo), core.Z(fhi),
-				hx(ftB), oB.term(secret), hxlist(cm)), desc)
+			out.AddCase(wrap(fmt.Sprintf("(CImport true %s %s %s %s (Some (%s, %s, %s)))", hx(claim), sc.Imp.term(), core.Z(flo), core.Z(fhi),
+				hx(ftB), oB.term(secret), hxlist(cm))), desc)
 			out.OracleCheck()
 			if !bytes.Equal(oB.Key, obsA.Key) || !bytes.Equal(oD.Key, obsA.Key) || oB.Proto != "AESGCM" {
 				bad("ft-key", "file-transfer session key differs from the claim session key")
@@ -1182,6 +1248,7 @@ func (s ctxSink) Count(k string)                  { s.c.Count(k) }
 func gen(c *core.Ctx) error {
 	slog.SetDefault(slog.New(slog.NewTextHandler(io.Discard, nil)))
 	c.Rule("every case is one call of the real cedar function (ParseClaimIDStrict/ParseClaimID, ImportSessionInfoAttributes, ExportSecSessionInfo, ImportSecSessionInfo, shortVersion, deriveSessionKey, claimExpiration, MintClaimSession, ImportClaimSession, ImportFileTransferSession) with its projected result; the Coq model is evaluated on the same input. Oracle: mint x import on two caches compared field by field, real resumed handshakes in both directions, every single-character corruption of the secret, public form, render/parse round trip.")
+	c.PerFile = 120
 	c.Assume("HKDF-SHA256 behaves as the free term Kdf of coq/Lib/SymC16.v (distinct secrets give distinct keys)")
 	c.Assume("strings.TrimSpace / strings.Fields are modelled for ASCII white space; the generator feeds bytes < 0x80 only")
 	c.Assume("ClassAd attribute values used by the claim code are strings, integers and booleans")
@@ -1189,7 +1256,7 @@ func gen(c *core.Ctx) error {
 	rnd := func(n int) int { return c.Rng.Intn(n) }
 
 	// 1. mint x import scenarios
-	nScen := 160
+	nScen := 112
 	if !c.Quick() {
 		nScen = 2400
 	}
@@ -1235,7 +1302,7 @@ func gen(c *core.Ctx) error {
 		}
 	}
 	claims = append(claims, "", "#", "##", "#[", "#[]", "#[]k", "a#[]k", "a#[b]", "a#b#[c]d", "a#[b]#c", "a#[b#c]d", "[a]#b", "a#]b[", "nohash", "a#b", "a#b#c", "a#b#c#d", "a#[x]", "a#[x]k]", "a#[x]k[")
-	nRand := 500
+	nRand := 300
 	if !c.Quick() {
 		nRand = 6000
 	}
@@ -1276,7 +1343,7 @@ func gen(c *core.Ctx) error {
 		`[Encryption="YES";Integrity="YES";CryptoMethods="AES";SessionExpires=1700000123;ValidCommands="443,444";ShortVersion="25.4.0";]`,
 		`[CryptoMethods="BLOWFISH";CryptoMethodsList="AES.BLOWFISH";]`, `[CryptoMethodsList="";CryptoMethods="AES.X";]`, `[CryptoMethodsList="AES";]`,
 		`[Encryption="a=b";x]`, `[[A="x";]]`, `[A="x]";]`, "[\tA\t=\t\"x\"\t;\n]", `[A=x"]`, `[A="x]`, `[SessionExpires="12";]`, `[encryption="NO";]`}
-	nRand = 400
+	nRand = 240
 	if !c.Quick() {
 		nRand = 5000
 	}
@@ -1331,7 +1398,7 @@ func gen(c *core.Ctx) error {
 			}
 		}
 	}
-	nRand = 300
+	nRand = 200
 	if !c.Quick() {
 		nRand = 4000
 	}
